@@ -869,6 +869,9 @@ func (x *Exec) runBlock(st *State, b *ssa.BasicBlock) {
 		st.vals[phi] = v
 		if phi.Comment != "" {
 			st.names[phi.Comment] = v
+			if phi.Comment == "rangeint.iter" {
+				st.names["rangeint"] = v
+			}
 		}
 	}
 	if body, isLoop := x.loopOf[b]; isLoop {
@@ -897,6 +900,9 @@ func (x *Exec) runBlock(st *State, b *ssa.BasicBlock) {
 			st.vals[phi] = v
 			if phi.Comment != "" {
 				st.names[phi.Comment] = v
+				if phi.Comment == "rangeint.iter" {
+					st.names["rangeint"] = v
+				}
 			}
 			st.assume(x.wfA(st, v.T, phi.Type()))
 		}
@@ -1277,6 +1283,10 @@ func (x *Exec) doReturn(st *State, in *ssa.Return) {
 	}
 	env := x.postEnv(st, results)
 	for i, c := range x.c.Ensures {
+		if x.c.TrustedPost {
+			x.trusted["postconditions of "+x.fname+" are assumed (body checked for safety only): "+x.c.TrustWhy] = true
+			break
+		}
 		t := x.trBool(env, c.E)
 		lbl := c.Label
 		if lbl == "" {
